@@ -94,4 +94,18 @@ def verifyEach (env : Env) (s : St) : List Tx → Res Unit
     | .err e => .err e
     | .panic p => .panic p
 
+/-! ### the transaction counter (`nuts_dag_transactions_total`) -/
+
+/-- the last AfterCommit hook of `state.Add`: `if txAdded { s.transactionCount.Inc() }`. `txAdded` is set right after the
+    presence re-check of the write closure; only a COMMIT runs the hooks (a rollback runs `loadState` instead) -/
+def addCounter (env : Env) (subs : List Sub) (s : St) (tx : Tx) (payload : Option Nat) (n : Nat) : Nat :=
+  match phase1 env s tx with
+  | .verified =>
+    if s.present tx.ref then n        -- the closure returns nil before `txAdded = true`: empty commit, the hook sees false
+    else match writeBody env subs s tx payload with
+      | .ok _ => n + 1
+      | .err _ => n                   -- rollback: no AfterCommit hook runs
+      | .panic _ => n
+  | _ => n                            -- present / refused in the read transaction: `db.Write` is never reached
+
 end Nuts.C06.Late
